@@ -16,8 +16,13 @@
 //
 // usage: vcheck C15 [-procs N] [-rpc name]        (master)
 //
-//	vcheck C15 worker <shard> <nshards> [rpc]  (worker, prints one JSON line)
-//	vcheck C15 bufconn                        (worker for the updateDag client path, real gRPC over bufconn)
+//	vcheck C15 worker <shard> <nshards> [rpc]  (worker: one JSON line for the controlled part, then one for the
+//	                                           updateDag client path - real gRPC over bufconn, pass-through mode)
+//
+// Resource notes: the process-wide nodes pin ~23 GB of untouched virtual memory (bigcache/badger arenas), which
+// would keep Go's GC pacer asleep; the workers therefore collect explicitly (RSS stays below 500 MB each).
+// The master hands an internal deadline to the workers (common.Deadline: 140 s quick / 21 min thorough); a worker
+// that meets it stops and the run is reported with exhaustive=false.
 package main
 
 import (
